@@ -717,6 +717,7 @@ def regenerate(repo: str = REPO) -> Dict[str, List[str]]:
 # ------------------------------------------------------------------------------------------
 ATTR_DATA_KEYS = {"f", "r", "b", "L", "K", "navg", "D", "O", "i", "XX", "YY", "XY", "S12", "S2", "M2", "compute_t", "m", "nf"}
 ATTR_DATA_KIND = {"XX": "R", "YY": "R", "XY": "C", "S12": "R", "S2": "R", "M2": "R", "navg": "R"}
+ATTR_EXTRA_NAMES = ["G"]   # served by __getattr__ but missing from __dir__'s list
 ATTR_SEQUENCE_LEVEL = {"cf_rad_unwrapped", "cf_deg_unwrapped"}  # np.unwrap couples bins: modelled separately
 
 
@@ -1003,6 +1004,7 @@ def gen_attrs(repo: str = REPO) -> Tuple[str, Dict[str, Dict[str, Optional[str]]
         fns = parse_functions(path)
         ga = fns["__getattr__"]
         names = [n for n in attr_names(repo) if n not in ATTR_SEQUENCE_LEVEL]
+        names += [n for n in ATTR_EXTRA_NAMES if n not in names]
     except Exception as ex:  # noqa
         return out + f"def attrs_UNSUPPORTED : Nat := translation_failed_attrs\nend Gen\n", table, [str(ex)]
     for cross in (False, True):
